@@ -158,7 +158,7 @@ inductive WFEnumA : Enum → Prop
 inductive WFMemberA : Member → Prop
   | bare (m : Member) : WFMember m → WFMemberA m
   | plain (name : String) (t : FieldType) (v : FieldValue) (a : Attribute) (as : List Attribute) :
-      IsMemberName name → WFType t → WFValue v → (∀ x ∈ a :: as, WFFieldAttr x) →
+      IsPropName name → WFType t → WFValue v → (∀ x ∈ a :: as, WFFieldAttr x) →
       WFMemberA (.field { name := name, fieldType := t, value := v, attributes := some (a :: as) })
   | valuePlaceholder (t : FieldType) (v : FieldValue) (a : Attribute) (as : List Attribute) :
       WFType t → WFValue v → (∀ x ∈ a :: as, WFFieldAttr x) →
